@@ -73,3 +73,21 @@ Proof.
   split; [intros x H; vm_compute in H; inversion H; subst x; vm_compute; reflexivity|].
   intros s i j. unfold e_dr, Model.Wrs.maxU32. lia.
 Qed.
+
+(* the range hypothesis on the draws is needed (finding F18 inside the served answer): with the draw 2^32-1 for
+   the weight-0 candidate of ANY a.z. (index 1) its key is Pow(1, +Inf) = 1, the largest: the weight-0 address
+   10.0.0.2 is served, together with 10.0.0.4 *)
+Definition e_dr18 : draws := fun _ _ j => if (j =? 1)%nat then Model.Wrs.maxU32 else 1000 * (N.min (N.of_nat j) 1000 + 1).
+Definition e_y18 : cresponse :=
+  mkCResp 1 (Some ([1; 65; 1; 122; 0], 255, 1)) 0 true
+    [mkRR [1; 65; 1; 122; 0] 1 1 10 [10; 0; 0; 4]; mkRR [1; 65; 1; 122; 0] 1 1 10 [10; 0; 0; 2]] [] [] None.
+
+Example served_zero_weight_refuted :
+  realise N Model.Wrs.rk_lt Model.Wrs.rk_pos draw_key e_dr18 2 e_x1 = e_y18 /\
+  In (mkRec [[97]; [122]] false None 1 10 0 [10; 0; 0; 2]) e_recs /\
+  In (mkRR (q_name e_q1) 1 1 10 [10; 0; 0; 2]) (c_an e_y18) /\
+  (forall s i j, e_dr18 s i j <= Model.Wrs.maxU32).
+Proof.
+  split; [vm_compute; reflexivity|]. split; [vm_compute; tauto|]. split; [right; left; reflexivity|].
+  intros s i j. unfold e_dr18, Model.Wrs.maxU32. destruct (j =? 1)%nat; lia.
+Qed.
